@@ -63,18 +63,24 @@ def omin : Option α → Option α → Option α
   | some a, some b => if b < a then some b else some a
 
 /-- table lookup (`none` = +∞ / outside the table) -/
-def look (d : List (Option α)) (v : Nat) : Option α := (d[v]?).join
+def look (d : Array (Option α)) (v : Nat) : Option α := (d[v]?).join
 
-/-- one round for node `v`: min of the old value and `d u + w u v` over all `u` with an edge to `v` -/
-def relax (G : Graph α) (n : Nat) (d : List (Option α)) (v : Nat) : Option α :=
-  (List.range n).foldl (fun acc u => if v ∈ G.adj u then omin acc ((look d u).map (· + G.w u v)) else acc) (look d v)
+/-- one round for node `v`: min of the old value and `d u + w u v` over the candidate predecessors
+`us` (only those `u` with an edge `u → v` count) -/
+def relax (G : Graph α) (us : List Nat) (d : Array (Option α)) (v : Nat) : Option α :=
+  us.foldl (fun acc u => if v ∈ G.adj u then omin acc ((look d u).map (· + G.w u v)) else acc) (look d v)
 
-def bfIter (G : Graph α) (n s : Nat) : Nat → List (Option α)
-  | 0 => (List.range n).map fun v => if v = s then some 0 else none
-  | k + 1 => let d := bfIter G n s k; (List.range n).map (relax G n d)
+/-- `preds v` lists candidate predecessors of `v`; it must contain every `u` with an edge `u → v`
+(`PredsOk`), extra entries are harmless.  `fun _ => List.range n` always qualifies; the judge passes
+the tabulated neighbour lists of the (undirected) network so that a round costs O(|E|). -/
+def bfIter (G : Graph α) (preds : Nat → List Nat) (n s : Nat) : Nat → Array (Option α)
+  | 0 => ((List.range n).map fun v => if v = s then some 0 else none).toArray
+  | k + 1 => let d := bfIter G preds n s k; ((List.range n).map fun v => relax G (preds v) d v).toArray
 
 /-- nodes are `0 … n-1`; `n - 1` rounds -/
-def bellmanFord (G : Graph α) (n s : Nat) : List (Option α) := bfIter G n s (n - 1)
+def bellmanFord (G : Graph α) (preds : Nat → List Nat) (n s : Nat) : Array (Option α) := bfIter G preds n s (n - 1)
+
+def PredsOk (G : Graph α) (preds : Nat → List Nat) : Prop := ∀ u v, v ∈ G.adj u → u ∈ preds v
 
 end bf
 
@@ -197,13 +203,18 @@ def SNet.endsOk (sn : SNet) : Bool :=
     | some p, some q, some a, some b => ptEqRat p a.2 && ptEqRat q b.2 && l.a != l.b
     | _, _, _, _ => false
 
+/-- the hypotheses of `bellmanFord_correct`, tested on the concrete oracle graph: targets in range,
+non-negative weights, and the neighbour lists are complete predecessor lists (symmetry) -/
+def graphOk (G : Graph Rat) (n : Nat) : Bool :=
+  (List.range n).all fun u => (G.adj u).all fun v => v < n && (G.adj v).contains u && 0 ≤ G.w u v
+
 /-- the verdict on one query: `none` = the answer satisfies the property, `some why` otherwise.
 `s`/`t` range over the nearest nodes (a singleton unless the query point is equidistant). -/
 def judgeQuery (sn : SNet) (o : Opt) (exact : Bool) (from_ to : Pt Rat) (ans : Answer) : Option String :=
   let n := sn.size
   let G := sn.graph o
   let ok (s t : Nat) : Option String :=
-    let best := look (bellmanFord G n s) t
+    let best := look (bellmanFord G G.adj n s) t
     if !closeTo exact (sn.sum SLink.len ans.links) ans.distance then some "distance-is-not-the-sum-of-link-lengths"
     else if !closeTo exact (sn.sum SLink.time ans.links) ans.time then some "time-is-not-the-sum-of-link-times"
     else if ans.links.isEmpty then
@@ -224,6 +235,7 @@ def judgeQuery (sn : SNet) (o : Opt) (exact : Bool) (from_ to : Pt Rat) (ans : A
       if !closeTo false (segLen from_ a.2) ans.startDistance then some "startDistance-wrong"
       else if !closeTo false (segLen to b.2) ans.endDistance then some "endDistance-wrong" else none
     | _, _ => some "node-unknown"
+  if !graphOk G n then some "oracle-graph-violates-the-hypotheses-of-bellmanFord_correct" else
   let cands := (sn.nearest from_).flatMap fun s => (sn.nearest to).map fun t => (s, t)
   let res := cands.map fun (s, t) => match ok s t with | none => sd s t | some w => some w
   if res.isEmpty then some "no-node" else if res.any (·.isNone) then none else res.head?.join
